@@ -23,6 +23,12 @@ def plan(ctx):
             obs.append(Obligation(f"lrc.{q}.{sl}", "z3", "lrc_checks", q, param={"L": L, "slice": sl}, timeout=300 if quick else 1500, twin_timeout=0,
                                   bounds=f"all token strings of length <= {L} over the {sl} alphabet (the rewritten string is 1-2 tokens longer)",
                                   desc="two charts over a string and its rewrite: " + desc))
+    from sqv.harness import txt
+    for i, prog in enumerate(txt.PROGRAMS):
+        obs.append(Obligation(f"txt.layout_rewrite.p{i}", "xh", "txt", "layout_rewrite", param={"program": i}, timeout=T * 3,
+                              bounds="one of 12 concrete programs (strings and comments containing brackets/quotes/#, nested multi-line literals, %..% names); "
+                                     "rewrite kind and position indices symbolic (finite domain enumerated through the solver, bodies run natively on the real lexer+parser)",
+                              desc=f"program {i}: 13 layout rewrites (space/tab at a token boundary, comments before a line end and as whole lines, line break after a token inside brackets, CRLF, ; <-> newline, blank statements) at every applicable position: parse(base) == parse(rewritten)"))
     return {
         "precheck": lrc_precheck,
         "obligations": obs,
